@@ -55,6 +55,8 @@ func runC05(p *Prog, r *Result) {
 	checkMinifyGate(p, r, si)
 	r.Rule("R05g", "must-sink: every comment field of every node a printer function queues comments for is queued on every path through the scope where that node is bound (or handed to a method that does)", 24)
 	checkCommentMustSink(p, r, si, "R05g", c05MustSinkExceptions)
+	r.Rule("R05i", "the comment queue is empty wherever it is overwritten or dropped: every call made while the queue is set aside, or on the throw-away printer, flushes what it queues before returning", 2)
+	checkQueueEmptyWhenOverwritten(p, r, si, "R05i")
 	// the one construction site
 	g := buildRefGraph(p)
 	sites := g.constructionSites(si.commentT)
@@ -1357,6 +1359,8 @@ var c05MustSinkExceptions = map[string]string{
 }
 
 var c05Controls = []Control{
+	{Name: "nested-flush-depends-on-line", Rule: "R05i", WantKey: "flushHeredocs#p.pendingComments = coms overwrites an empty queue", File: "syntax/printer.go",
+		Mutate: ctlReplaceAnywhere("\tp.stmtList(stmts, last)\n\tif closing.IsValid() {\n\t\tp.flushComments()", "\tp.stmtList(stmts, last)\n\tif closing.Line() > p.line {\n\t\tp.flushComments()")},
 	{Name: "testdecl-body-comments-not-queued", Rule: "R05g", WantKey: "command#cmd.Body.Comments", File: "syntax/printer.go",
 		Mutate: ctlReplaceAnywhere("\t\t// Such as the one in \"@test \"x\" { foo; } <<EOF # comment\".\n\t\tp.comments(cmd.Body.Comments...)\n", "")},
 	{Name: "pipeline-lhs-keeps-its-comments", Rule: "R05g", WantKey: "command#cmd.X.Comments", File: "syntax/parser.go",
